@@ -40,6 +40,12 @@ pub struct SinkLog {
     pub calls: u64,
     pub failures: u64,
     pub empty_offers: u64,
+    /// A failure was returned and the harness has not yet seen it reported.
+    pub pending: bool,
+    /// Calls that reached the sink while a failure was pending. Must stay 0.
+    pub calls_while_pending: u64,
+    /// Message of the first pending failure (the one that has to be reported).
+    pub pending_msg: String,
 }
 
 pub struct Sink {
@@ -72,9 +78,13 @@ impl Write for Sink {
         self.idx += 1;
         let mut log = self.log.borrow_mut();
         log.calls += 1;
+        if log.pending {
+            log.calls_while_pending += 1;
+        }
         if buf.is_empty() {
             log.empty_offers += 1;
         }
+        let call = log.calls;
         match step {
             SinkStep::Accept(n) => {
                 let n = (n.max(1) as usize).min(buf.len());
@@ -85,12 +95,21 @@ impl Write for Sink {
             SinkStep::Zero => {
                 if !buf.is_empty() {
                     log.failures += 1;
+                    if !log.pending {
+                        log.pending = true;
+                        log.pending_msg = String::new(); // std reports WriteZero
+                    }
                 }
                 Ok(0)
             }
             SinkStep::Fail(k) => {
                 log.failures += 1;
-                Err(io::Error::new(k.kind(), FAULT_MSG))
+                let msg = format!("{FAULT_MSG} (sink call {call})");
+                if !log.pending {
+                    log.pending = true;
+                    log.pending_msg = msg.clone();
+                }
+                Err(io::Error::new(k.kind(), msg))
             }
             SinkStep::Panic => {
                 drop(log);
@@ -119,6 +138,9 @@ pub enum WOp {
     /// `write::text::ascii_digits` of the value `bits` truncated to integer type `ty` (index into
     /// props::c13::TYPES).
     Digits { ty: u8, bits: u128 },
+    /// Fills the buffer until exactly `free` bytes are left (according to the mirrored buffering
+    /// policy), then writes the integer: exercises the integer fast path next to the buffer end.
+    DigitsNearEnd { free: u8, ty: u8, bits: u128 },
     /// `buf_write_ptr(len)`; when non-null, `fill` bytes (<= len) are written through the pointer
     /// and committed with `advance_unchecked(fill)`.
     BufPtr { len: u32, fill: u32 },
@@ -251,6 +273,7 @@ pub fn run_whistory(h: &WHistory, which: WOracles, prop: &str) -> Result<WStats,
             let pending_before = pending_failure;
             let mut report: Option<io::Result<()>> = None;
             let mut wrote: Option<Vec<u8>> = None;
+            let mut near_end_pad: Option<usize> = None;
 
             let resolve = |l: &Len, mirror: usize| -> usize {
                 match l {
@@ -289,6 +312,15 @@ pub fn run_whistory(h: &WHistory, which: WOracles, prop: &str) -> Result<WStats,
                     WOp::Digits { ty, bits } => {
                         write_digits(&mut w, *ty, *bits);
                         wrote = Some(digits_text(*ty, *bits).into_bytes());
+                    }
+                    WOp::DigitsNearEnd { free, ty, bits } => {
+                        let pad = CAPACITY.saturating_sub(mirror_buffered.min(CAPACITY)).saturating_sub(*free as usize);
+                        let mut bytes = content(h.content_seed, w_stream.len(), pad);
+                        w.write_all_defer_err(&bytes);
+                        write_digits(&mut w, *ty, *bits);
+                        bytes.extend_from_slice(digits_text(*ty, *bits).as_bytes());
+                        near_end_pad = Some(pad);
+                        wrote = Some(bytes);
                     }
                     WOp::BufPtr { len, fill } => {
                         let len = *len as usize;
@@ -355,7 +387,23 @@ pub fn run_whistory(h: &WHistory, which: WOracles, prop: &str) -> Result<WStats,
                     bad!("panic", "step {} {:?} panicked: {}", i, op, msg);
                 }
             }
-            if let Some(bytes) = &wrote {
+            if let (Some(bytes), Some(pad)) = (&wrote, near_end_pad) {
+                // two writes: the padding (fits by construction), then the digits
+                let digits = bytes.len() - pad;
+                mirror_buffered += pad;
+                if mirror_buffered + digits <= CAPACITY {
+                    mirror_buffered += digits;
+                } else {
+                    st.crossed_capacity += 1;
+                    mirror_buffered = digits.saturating_sub(CAPACITY.saturating_sub(mirror_buffered));
+                }
+                st.digits_near_end += 1;
+                if pending_failure {
+                    st.writes_between_failure_and_report += 1;
+                }
+                w_stream.extend_from_slice(bytes);
+                st.total_written += bytes.len();
+            } else if let Some(bytes) = &wrote {
                 // mirror of the buffering policy
                 let n = bytes.len();
                 if matches!(op, WOp::BufPtr { .. }) {
@@ -419,15 +467,38 @@ pub fn run_whistory(h: &WHistory, which: WOracles, prop: &str) -> Result<WStats,
             if pending_failure && !failed_now && l.calls != calls_at_failure {
                 bad!("sink-called-while-error-parked", "step {} {:?}: sink called after the failure", i, op);
             }
+            if l.calls_while_pending != 0 {
+                bad!(
+                    "sink-called-while-error-parked",
+                    "step {} {:?}: the sink was called {} time(s) after it had failed and before that failure was reported",
+                    i,
+                    op,
+                    l.calls_while_pending
+                );
+            }
             if let Some(r) = &report {
                 match (r, pending_failure) {
                     (Err(e), true) => {
-                        let ok = e.to_string() == FAULT_MSG || e.kind() == io::ErrorKind::WriteZero;
+                        let ok = if l.pending_msg.is_empty() {
+                            e.kind() == io::ErrorKind::WriteZero
+                        } else {
+                            e.to_string() == l.pending_msg
+                        };
                         if !ok {
-                            bad!("wrong-error", "step {} {:?}: reported {:?}, which is not the sink's error", i, op, e);
+                            bad!(
+                                "wrong-error",
+                                "step {} {:?}: reported {:?}, but the sink's (first unreported) failure was {:?}",
+                                i,
+                                op,
+                                e.to_string(),
+                                l.pending_msg
+                            );
                         }
                         st.reports += 1;
                         pending_failure = false;
+                        drop(l);
+                        log.borrow_mut().pending = false;
+                        continue;
                     }
                     (Ok(()), false) => {
                         if !ever_failed && matches!(op, WOp::Flush) && l.received != w_stream {
@@ -486,7 +557,7 @@ pub fn run_whistory(h: &WHistory, which: WOracles, prop: &str) -> Result<WStats,
         }
         if which.stream && !panicked {
             let l = log.borrow();
-            if pending_failure && l.calls != calls_before {
+            if (pending_failure && l.calls != calls_before) || l.calls_while_pending != 0 {
                 bad!("sink-called-while-error-parked", "drop called the sink although an unreported failure is parked");
             }
             if l.failures > failures_before {
@@ -582,6 +653,7 @@ pub fn wop_strategy(hostile: bool) -> BoxedStrategy<WOp> {
         4 => len_strategy().prop_map(WOp::WriteAll),
         4 => len_strategy().prop_map(WOp::WriteAllDefer),
         6 => (0u8..12, bits_strategy()).prop_map(|(ty, bits)| WOp::Digits { ty, bits }),
+        2 => (0u8..=42, 0u8..12, bits_strategy()).prop_map(|(free, ty, bits)| WOp::DigitsNearEnd { free, ty, bits }),
         2 => (0u32..=200, 0u32..=200).prop_map(|(len, fill)| WOp::BufPtr { len, fill }),
         1 => (prop_oneof![Just(CAPACITY as u32), Just(CAPACITY as u32 + 1), (15000u32..=17000)], 0u32..=40)
             .prop_map(|(len, fill)| WOp::BufPtr { len, fill }),
